@@ -326,15 +326,15 @@ def registration_routes_rule(cx, rep, rid):
                 if not vs:
                     continue
                 uv = [u for a in args for u in unit_variants(a)]
-                tok = ",".join(uv) if uv else tg.rsplit("::", 1)[-1]
+                toks = uv if uv else [tg.rsplit("::", 1)[-1]]       # one namespace per unit variant of the mode enum
                 for v in vs:
-                    per_variant.setdefault(v, {}).setdefault(g, set()).add(tok)
+                    per_variant.setdefault(v, {}).setdefault(g, set()).update(toks)
             if n["k"] == "Tup":
                 vs = variants_in(n)
                 uv = unit_variants(n)
                 if vs and uv:
                     for v in vs:
-                        per_variant.setdefault(v, {}).setdefault(g, set()).add(",".join(uv))
+                        per_variant.setdefault(v, {}).setdefault(g, set()).update(uv)
     n = 0
     for v, byfn in sorted(per_variant.items()):
         if len(byfn) < 2:
@@ -645,6 +645,56 @@ def verbatim_name_rule(cx, rep, rid):
     rep.floor(rid, "name parameters of the printing context's methods", n, 5)
 
 
+def merge_keeps_keys_rule(cx, rep, rid):
+    """C03.22.  parse of a union / intersection deep-merges the results of the matching members; what comes out is
+    accepted by the same validator and keeps every declared key.  Decided, in the merge / clone helpers (the module
+    function that builds the deep merge, with its inner functions): no key is skipped because of its NAME (a comparison
+    of a key with "constructor" / "prototype" / "__proto__" that gates a copy) and no key is looked up in a data object
+    with `in` (which also sees Object.prototype: `toString`, `valueOf` ..) - results are built with own-property
+    definitions, which need neither.  (Found: `{constructor: string} | {b: number}` parsed `{"constructor": "x"}` to
+    `{}`, which the same validator rejects.)"""
+    from rules.ts_common import CODEGEN
+    mod = cx.ts(CODEGEN)
+    fns = _module_fns(mod)
+    used = set()
+    for cname, c in mod.classes.items():
+        m = c.methods.get("parseAfterValidation")
+        if m and m["function"].get("body") is not None:
+            for x in twalk(m["function"]):
+                if x["type"] == "CallExpression" and _ident(x["callee"]):
+                    used.add(_ident(x["callee"]))
+    # the merge function is a module const initialised by a call of a module function (the constructor of the merge)
+    builders = set()
+    for vn, (_k, init, _d) in mod.vars.items():
+        if vn in used and init is not None and unparen(init).get("type") == "CallExpression" and _ident(unparen(init)["callee"]) in fns:
+            builders.add(_ident(unparen(init)["callee"]))
+    for u in used:
+        if u in fns:
+            builders.add(u)
+    rep.floor(rid, "merge / clone helper families used by parseAfterValidation", len(builders), 1)
+    NAMES = ("constructor", "prototype", "__proto__")
+    n = 0
+    for b in sorted(builders):
+        fn = fns[b]
+        name_tests = [x for x in twalk(fn) if x["type"] == "BinaryExpression" and x["operator"] in ("===", "!==", "==", "!=")
+                      and any(unparen(sd).get("type") == "StringLiteral" and unparen(sd)["value"] in NAMES for sd in (x["left"], x["right"]))]
+        in_tests = [x for x in twalk(fn) if x["type"] == "BinaryExpression" and x["operator"] == "in"]
+        # a test that only chooses HOW the key is written (if / else, both branches write) drops nothing
+        two_way = set()
+        for st in twalk(fn):
+            if st["type"] == "IfStatement" and st.get("alternate") is not None:
+                two_way |= {id(x) for x in twalk(st["test"])}
+        name_tests = [x for x in name_tests if id(x) not in two_way]
+        n += 1
+        rep.ob(rid, "%s/no-name-filter" % b, not name_tests,
+               "%s (the deep merge of parse results) skips keys by NAME (%s): a declared property called `constructor` / `prototype` / `__proto__` is dropped from what parse returns - `{constructor: string} | {b: number}` parses `{\"constructor\": \"x\"}` to `{}`, which the same validator rejects"
+               % (b, ", ".join(sorted({ts_s(x) for x in name_tests}))[:160]), mod.loc(name_tests[0]) if name_tests else mod.loc(fn), sample={"helper": b, "name_tests": len(name_tests)})
+        n += 1
+        rep.ob(rid, "%s/no-in-on-data" % b, not in_tests,
+               "%s (the deep merge of parse results) tests `%s`: `in` also sees Object.prototype, so a source key called `toString` / `valueOf` / `hasOwnProperty` counts as present in the other branch's result and is dropped - `{a: string} | {toString: string}` parses `{a: \"x\", toString: \"y\"}` to `{a: \"x\"}`"
+               % (b, ts_s(in_tests[0]) if in_tests else ""), mod.loc(in_tests[0]) if in_tests else mod.loc(fn), sample={"helper": b, "in_tests": len(in_tests)})
+
+
 def synthetic_name_digest_rule(cx, rep, rid):
     """C16.11 (= C02.23).  A definition name that the runtime makes up for a STRUCTURE (the variants of a discriminated
     union) is the identity of that structure inside a printing context: two different structures under one name means
@@ -719,7 +769,8 @@ REGISTRY = {
     "C01": [("C01.27", "no answer is taken from ONE member of an intersection (loops / find over the members of AllOf)", conjunct_selection_rule)],
     "C08": [("C08.17", "the scope of a declaration's type parameters covers every part of the declaration that is converted", declaration_scope_rule),
             ("C08.16", "no runtime class reads a property of the input through an own-only (hasOwnProperty-guarded) getter", own_only_read_rule)],
-    "C03": [("C03.21", "a class with child validators hands back the input itself only where a test established it is not an object", composite_parse_rule)],
+    "C03": [("C03.22", "the deep merge of parse results drops no key because of its name (no name filter, no `in` on data)", merge_keeps_keys_rule),
+            ("C03.21", "a class with child validators hands back the input itself only where a test established it is not an object", composite_parse_rule)],
     "C13": [("C13.13", "a number literal is encoded with the shortest round-trip rendering only (injective on doubles)", number_encoding_rule)],
     "C02": [("C02.23", "a made-up definition name stands for one structure only: it derives from a collision-resistant digest (= C16.11)", synthetic_name_digest_rule)],
     "C16": [("C16.11", "a made-up definition name stands for one structure only: it derives from a collision-resistant digest", synthetic_name_digest_rule),
